@@ -118,8 +118,13 @@ def _zero_cmp(e):
     return e
 
 
+LIGHT = [False]   # light mode: only the loop canonicalisations (S5 / S6 / S7 / S7a / S9), for the byte-level abstract interpreters
+
+
 def norm_expr(e):
     """bottom-up rewrite of one expression node (dicts / lists)"""
+    if LIGHT[0]:
+        return e
     if isinstance(e, list):
         return [norm_expr(x) for x in e]
     if not isinstance(e, dict):
@@ -508,11 +513,13 @@ def norm_stmt(s):
             for c in s["s"]:
                 out += norm_stmt(c)
             s["s"] = out
-        if k == "While":  # S5
+        if k == "While" and not LIGHT[0]:  # S5
             s["k"] = "For"
             s["was"] = "While"
             s.setdefault("init", None)
             s.setdefault("inc", None)
+        if LIGHT[0] and s.get("k") == "For" and s.get("was") == "While" and s.get("init") is None and s.get("inc") is None:
+            s["k"] = "While"    # the pre-pass renamed it only to try S7 / S7a
         if s.get("k") == "For":
             s = _index_loop_to_range(s)
         return [s]
@@ -522,6 +529,8 @@ def norm_stmt(s):
             if isinstance(s.get(key), dict):
                 r = norm_stmt(s[key])
                 s[key] = r[0] if len(r) == 1 else {"k": "Block", "s": r, "loc": s[key].get("loc")}
+        if LIGHT[0]:
+            return [s]
         # S1
         c = _strip(s["c"])
         if s.get("e") is not None and isinstance(c, dict) and c.get("k") == "Un" and c.get("op") == "!":
@@ -648,6 +657,9 @@ def norm_function(fn):
         return fn
     r = norm_stmt(body)
     body = r[0] if len(r) == 1 else {"k": "Block", "s": r, "loc": body.get("loc")}
+    if LIGHT[0]:
+        fn["body"] = body
+        return fn
     _tail_loops(body)
     if (fn.get("ret") == "void" or fn.get("kind") in ("ctor", "dtor")) and body.get("k") == "Block":
         body["s"] = _guard_tail(body.get("s", []), "Return")
